@@ -32,7 +32,7 @@ MODES = {
         "theorems": ["pkgjson_write_exact_on_safe_names", "pkgjson_only_values_change", "pkgjson_reread_exact",
                      "pkgjson_no_updates_identity", "pkgjson_success_implies_applied_on_safe_names",
                      "pkgjson_dotted_name_dropped_refuted", "pkgjson_wildcard_name_refuted"],
-        "quick": 1200, "thorough": 20000, "per": 60,
+        "quick": 800, "thorough": 20000, "per": 50,
     },
     "pom": {
         "type": "mcase", "model_ok": "mcase_model_ok", "spec_ok": "mcase_spec_ok", "spec_full": "mcase_spec_full",
@@ -295,7 +295,10 @@ def run(ctx):
                     "token-level rewrite (write/writeProject/writeDependency/writeString) and the inserted dependencyManagement block "
                     "are NOT modelled: pom_no_updates_identity / pom_tokens_preserved / pom_read_write_exact are not proved and are "
                     "decided by the harness's round-trip oracle only (encoding/xml token sequence of every written file, strict on "
-                    "the zero-update stream; re-read requirements = original requirements with the versions substituted), claimed on "
+                    "the zero-update stream; re-read requirements = original requirements with the versions substituted; effective version "
+                    "of every declaration of the pom chain, resolved independently with profile-scoped then project-level properties "
+                    "(harness eff.go): exactly the addressed declaration stands for VersionTo, incl. the stream with one property name "
+                    "defined in several origins), claimed on "
                     "the structural domain computed by the harness (flag claimed) intersected with the Coq domains d_total/d_sound",
         "known_findings_results": known_results,
     })
